@@ -5,9 +5,14 @@ from ..core import modules_for
 
 def run(ctx):
     q = ctx.tier == "quick"
+    if getattr(ctx, "replay", None) and "abs-geom " in open(ctx.replay).read():
+        from .. import absreplay
+        return absreplay.replay(ctx, ctx.replay)      # a read/write session judged by `sfmodel abs` (vlib/rdwrtail.py run_c11)
     run_common(ctx, "C11", modules_for("C11"), stride=2 if q else 1, l1_scripts=250 if q else 2500)
     if not getattr(ctx, "replay", None):
         from .. import rawsnap
         rawsnap.run(ctx, "C11")      # sf_write_raw in auto-header mode: every image is a valid file with the frames written so far
         from .. import small4        # SDS whole-file sessions: the image after a header update, byte for byte (lean/SfModel/SdsFile.lean)
         small4.run_sds(ctx, found=bool(ctx.violations))
+        from .. import rdwrtail
+        rdwrtail.run_c11(ctx)        # read/write sessions on RE-OPENED files (content behind the audio): every write entry point across the old end, update, image
